@@ -638,6 +638,15 @@ class MiniInterp:
         elif isinstance(t, ast.Attribute):
             obj = self.ev(t.value, env, fi)
             if isinstance(obj, (Sym, SymDict)):
+                st = obj.cls.find_setter(t.attr) if getattr(obj, "cls", None) is not None else None
+                if st is not None:
+                    self.call(self.prj.func(st.qual, raw=True), [v], {}, obj)
+                    return
+                if getattr(obj, "cls", None) is not None:
+                    gm = obj.cls.find_method(t.attr)
+                    if gm is not None and gm.is_property() and not any(isinstance(d, ast.Attribute) and d.attr == "cached_property" or
+                                                                       isinstance(d, ast.Name) and d.id == "cached_property" for d in gm.node.decorator_list):
+                        raise PyRaise("AttributeError", t)      # a property without setter
                 obj.fields[t.attr] = v
             elif isinstance(obj, tuple) and obj and obj[0] == "class":
                 owner = next((c for c in obj[1].mro() if t.attr in c.class_attrs), obj[1])
@@ -2155,6 +2164,12 @@ class MiniInterp:
             return T("builtin", "NoneType")
         if isinstance(v, ISet) or isinstance(v, (set, frozenset)):
             return T("builtin", "set")
+        if isinstance(v, LazyIter):
+            return T("external", "types.GeneratorType")
+        if isinstance(v, _Iter):
+            return T("external", "builtins.iterator")
+        if isinstance(v, (BoundFunc, Closure, PyFn)):
+            return T("external", "types.FunctionType" if not (isinstance(v, BoundFunc) and v.self_obj is not None) else "types.MethodType")
         raise Unknown(f"type of {type(v).__name__}")
 
     def has_attr(self, obj, name: str) -> bool:
